@@ -109,14 +109,38 @@ theorem noClash_of {S : Schemas} {s : Schema} (h : noClash S s = true) : NoClash
   · exact absurd h1 hp
   · exact h1 o ho
 
+theorem stepObj_foreign {S : Schemas} {s : Schema} {st : Def × Pending} (hq : Foreign S s st.2) (o : Obj) :
+    Foreign S s (stepObj S s.pkg st o).2 := foldPush_foreign _ hq
+
+/-- a round writes only under names of queued (foreign) objects, and queues only foreign objects -/
+theorem runForeign_keeps {S : Schemas} {s : Schema} (k : String) (l : Pending) (hk : k ∉ onames (l.map (·.2)))
+    (st : Def × Pending × List String) (hq : Foreign S s st.2.1) :
+    rget k (runForeign S s.pkg l st).1 = rget k st.1 ∧ Foreign S s (runForeign S s.pkg l st).2.1 := by
+  induction l generalizing st with
+  | nil => exact ⟨rfl, hq⟩
+  | cons e rest ih =>
+    simp only [List.map_cons, onames, List.mem_cons, not_or] at hk
+    simp only [runForeign, List.foldl_cons]
+    have hstep : rget k (stepForeign S s.pkg st e).1 = rget k st.1 ∧ Foreign S s (stepForeign S s.pkg st e).2.1 := by
+      unfold stepForeign
+      split
+      · exact ⟨rfl, hq⟩
+      · refine ⟨?_, stepObj_foreign (st := (st.1, st.2.1)) hq e.2⟩
+        simp only [stepObj, rget_rset]
+        have hne : ¬ e.2.name = k := fun c => hk.1 c.symm
+        simp [hne]
+    obtain ⟨g1, g2⟩ := ih (by simpa [onames] using hk.2) (stepForeign S s.pkg st e) hstep.2
+    simp only [runForeign] at g1 g2
+    exact ⟨by rw [g1, hstep.1], g2⟩
+
 theorem closure_keeps {S : Schemas} {s : Schema} (hc : NoClash S s) (k : String) (hk : localHas s k = true) :
-    ∀ (fuel : Nat) (d : Def) (q : Pending) (D : Def), Foreign S s q → closure S s.pkg fuel d q = some D →
-      rget k D = rget k d := by
+    ∀ (fuel : Nat) (d : Def) (q : Pending) (em : List String) (D : Def), Foreign S s q →
+      closure S s.pkg fuel d q em = some D → rget k D = rget k d := by
   intro fuel
   induction fuel with
-  | zero => intro d q D _ h; simp [closure] at h
+  | zero => intro d q em D _ h; simp [closure] at h
   | succ n ih =>
-    intro d q D hq h
+    intro d q em D hq h
     simp only [closure] at h
     split at h
     · cases h; rfl
@@ -128,8 +152,9 @@ theorem closure_keeps {S : Schemas} {s : Schema} (hc : NoClash S s) (k : String)
         have := hc.2 s' hs' hp e.2 hmem
         rw [hn, hk] at this
         exact Bool.noConfusion this
-      rw [ih _ _ D (runObjs_foreign (st := (d, [])) _ (by intro e he; simp at he)) h]
-      exact rget_runObjs_other S s.pkg _ (d, []) k hnot
+      obtain ⟨g1, g2⟩ := runForeign_keeps (S := S) (s := s) k q hnot (d, [], em) (by intro e he; simp at he)
+      rw [ih _ _ _ D g2 h]
+      exact g1
 
 /-- when names do not clash every object of the schema keeps its own definition -/
 theorem emitDefs_own {S : Schemas} {s : Schema} (hc : noClash S s = true) {fuel : Nat} {D : Def}
@@ -139,7 +164,7 @@ theorem emitDefs_own {S : Schemas} {s : Schema} (hc : noClash S s = true) {fuel 
   have hk : localHas s o.name = true := localHas_iff.2 (List.mem_map.2 ⟨o, ho, rfl⟩)
   have hf : Foreign S s (firstRound S s).2 :=
     runObjs_foreign (st := ([], [])) _ (by intro e he; simp at he)
-  rw [closure_keeps hc' o.name hk fuel _ _ D hf he]
+  rw [closure_keeps hc' o.name hk fuel _ _ _ D hf he]
   exact rget_runObjs_own S s.pkg (schemaObjs s) ([], []) hc'.1 o ho
 
 /-! ### fields: a field keeps its own property when field names are distinct -/
